@@ -19,8 +19,8 @@ MUTANTS: dict[str, list[dict]] = {
         M("euler-swapped", "schemes.py", "x.state.symbol + dt * x.symbol,\n                )\n            )\n\n            i += 1", "x.symbol + dt * x.state.symbol,\n                )\n            )\n\n            i += 1", "R05.a"),
         M("euler-no-dt", "schemes.py", "x.state.symbol + dt * x.symbol,\n                )\n            )\n\n            i += 1", "x.state.symbol + x.symbol,\n                )\n            )\n\n            i += 1", "R05.a"),
         M("euler-counter-outside", "schemes.py", "            )\n\n            i += 1\n\n    return eqs", "            )\n\n        i += 1\n\n    return eqs", "R05.a"),
-        M("alias-euler-to-hybrid", "schemes.py", '["forward_rush_larsen", "rush_larsen", "hybrid_rush_larsen"]', '["forward_rush_larsen", "rush_larsen", "hybrid_rush_larsen", "forward_euler"]', "R05.b"),
-        M("alias-wrong-family", "schemes.py", '["forward_generalized_rush_larsen", "generalized_rush_larsen"]', '["forward_generalized_rush_larsen", "generalized_rush_larsen", "forward_euler"]', "R05.b"),
+        M("alias-euler-to-hybrid", "schemes.py", '["forward_euler", "forward_explicit_euler", "euler", "explicit_euler"]', '["forward_euler", "forward_explicit_euler", "explicit_euler", "rush_larsen"]', "R05.b"),
+        M("alias-wrong-family", "schemes.py", '["forward_generalized_rush_larsen", "generalized_rush_larsen"]', '["forward_generalized_rush_larsen", "generalized_rush_larsen", "rush_larsen"]', "R05.b"),
         M("rename-const", "schemes.py", "func.__code__.replace(co_name=scheme)", "func.__code__.replace(co_name=func.__name__)", "R05.b"),
         M("alias-states-as-result", "codegen/python.py", 'values_type="numpy.zeros_like(states, dtype=numpy.float64)",\n        )\n\n    def _scheme_arguments', 'values_type="states",\n        )\n\n    def _scheme_arguments', "R05.c"),
         M("c-nonconst", "codegen/c.py", '"p": "const double *__restrict parameters",\n        }\n        argument_list = [argument_dict[v] for v in value] + ["double* values"]\n        states = sympy.IndexedBase("states", shape=(self.ode.num_states,))\n        parameters = sympy.IndexedBase("parameters", shape=(self.ode.num_parameters,))\n        values = sympy.IndexedBase("values", shape=(self.ode.num_states,))\n\n        return Func(\n            arguments=argument_list,\n            states=states,\n            parameters=parameters,\n            values=values,\n            values_type="",\n        )\n\n    def _scheme', '"p": "double *__restrict parameters",\n        }\n        argument_list = [argument_dict[v] for v in value] + ["double* values"]\n        states = sympy.IndexedBase("states", shape=(self.ode.num_states,))\n        parameters = sympy.IndexedBase("parameters", shape=(self.ode.num_parameters,))\n        values = sympy.IndexedBase("values", shape=(self.ode.num_states,))\n\n        return Func(\n            arguments=argument_list,\n            states=states,\n            parameters=parameters,\n            values=values,\n            values_type="",\n        )\n\n    def _scheme', "R05.c"),
